@@ -277,6 +277,20 @@ pub fn generate(thorough: bool, seed: u64, out: &mut dyn Write) {
             writeln!(out, "edit {} | rv=0:0:{}:{}:{}:0.{}", m.tokens(), vc, dot_streams(&streams), u16be(&indices), ni).unwrap();
         }
     }
+    // a vertex stream beyond 64 KiB on every run (`stride * k` ≥ 2^16 for the late vertices): a
+    // replacement of 3 vertices by 5600 of 12 bytes, written and re-read
+    {
+        let vc = 5600usize;
+        let decl = vec![GElem { stream: 0, offset: 0, ty: 2, usage: 0, uidx: 0 }];
+        let mut m = single_stream_model(decl.clone(), 12, 3, canonical_streams(&mut rng, &decl, &[12], 3)[0].1.clone());
+        m.lods[0].meshes[0].indices = vec![0, 1, 2];
+        m.lods[0].meshes[0].index_pad = 5;
+        m.lods[0].meshes[0].subs = vec![GSub { off: 0, count: 3, mask: 0, bstart: 0, bcount: 0 }];
+        let streams = canonical_streams(&mut rng, &decl, &[12], vc);
+        let ni = 3 * 50;
+        let indices: Vec<u16> = (0..ni).map(|_| rng.below(vc as u64) as u16).collect();
+        writeln!(out, "edit {} | rv=0:0:{}:{}:{}:0.{}", m.tokens(), vc, dot_streams(&streams), u16be(&indices), ni).unwrap();
+    }
     let n = if thorough { 30000 } else { 400 };
     for i in 0..n {
         let o = GenOpts {
@@ -306,14 +320,15 @@ pub fn generate(thorough: bool, seed: u64, out: &mut dyn Write) {
     // and the index offset from the file header.  The copies the reader does not use are set to
     // other values (small deltas: the writer sizes the file from the header's offsets + sizes);
     // parse -> write -> parse must report the same model
-    let n = if thorough { 3000 } else { 60 };
+    let n = if thorough { 4000 } else { 120 };
     for i in 0..n {
         let o = GenOpts { max_meshes: if i % 3 == 0 { 3 } else { 2 }, max_vertices: 40, combos: WCOMBOS, v5_only: true, canonical: true };
-        let m = gen_model(&mut rng, &o);
+        let mut m = gen_model(&mut rng, &o);
+        let base = m.tokens();
         let k = 1 + rng.below(3) as usize;
         let mut ps = vec![];
         for _ in 0..k {
-            let f = *rng.pick(&["lio", "lio", "lio", "fvo", "fvs", "fis", "lvs", "lis"]);
+            let f = *rng.pick(&["lio", "lio", "lio", "fvo", "fvs", "fis", "lvs", "lis", "fss", "frs", "frs"]);
             let lod = rng.below(3);
             // the value is a delta to the stored one, applied by the driver (which knows the layout)
             let d: i64 = match rng.below(5) {
@@ -325,7 +340,30 @@ pub fn generate(thorough: bool, seed: u64, out: &mut dyn Write) {
             };
             ps.push(format!("{}.{}.{}", f, lod, d));
         }
-        writeln!(out, "wredun redun={} {}", ps.join(","), m.tokens()).unwrap();
+        if i % 4 == 3 {
+            // stored stack / runtime size too small, a model without shape tables (no edit resizes
+            // one), vertex replacements only: the data offset has to come from recomputed sizes
+            let mut m2 = gen_model(&mut rng, &o);
+            for _ in 0..10 {
+                if m2.shm.is_empty() && m2.shv.is_empty() {
+                    break;
+                }
+                m2 = gen_model(&mut rng, &o);
+            }
+            let base2 = m2.tokens();
+            let toks = gen_history(&mut rng, &mut m2, false, false);
+            let f = *rng.pick(&["frs", "frs", "fss"]);
+            let d = *rng.pick(&[2i64, 4, 8, 16, 32, 64]);
+            if !toks.is_empty() {
+                writeln!(out, "wredun redun={}.0.-{} {} | {}", f, d, base2, toks.join(" ")).unwrap();
+            }
+        } else if i % 2 == 0 {
+            writeln!(out, "wredun redun={} {}", ps.join(","), base).unwrap();
+        } else {
+            // the same with an edit history: the edits must leave consistent headers behind
+            let toks = gen_history(&mut rng, &mut m, false, false);
+            writeln!(out, "wredun redun={} {} | {}", ps.join(","), base, toks.join(" ")).unwrap();
+        }
     }
     // damaged encodings (`mut <seed> <k> write …`, Base/Mutate.lean) through parse -> write -> parse
     let n = if thorough { 10000 } else { 200 };
